@@ -433,7 +433,16 @@ class World:
             return self.sorted_(I, seq, key, reverse)
 
         @reg("map")
-        def _map(I, f, x):
+        def _map(I, f, x, *more):
+            if more:  # map(f, a, b, ...) == (f(*t) for t in zip(a, b, ...))
+                z = _zip(I, x, *more)
+                zs = I.iterable(z)
+                if isinstance(zs, list):
+                    return OneShotList([I.call(f, list(t)) for t in zs])
+                zs = zs.consume()
+                r = Stream(zs.length, None, zs.guards, lambda i: I.call(f, list(zs.elem(i))))
+                r.oneshot = True
+                return r
             seq = I.iterable(x)
             if isinstance(seq, list):
                 return OneShotList([I.call(f, [v]) for v in seq])
